@@ -546,6 +546,10 @@ func runBatch(t ev.TB, part string, b *Batch) (classes []string, nontrivial bool
 		return nil, false, false
 	}
 	r.checkNegatives(desc)
+	// phase A0: every client is done while stalled upstream handlers are still parked
+	if !r.settle("all clients done, upstreams still stalled", r.requestsEnded(), desc) {
+		return nil, false, false
+	}
 	r.release() // parked upstream handlers go on (late replies, closes)
 
 	// classes from what really happened
